@@ -829,12 +829,15 @@ func lemmaShowableKinds(k reflect.Kind) bool {
 
 // The functions of a package are collected from a map and sorted with a
 // caller-supplied order; the order must decide every pair of distinct
-// functions. Assumed of the data: two distinct named functions of one package
-// differ in name or file (function literals are not collected).
+// functions. Name and file do not (a package may declare several init
+// functions, even on one line), so the order ends with the position at which
+// the function entered the work list. Assumed of the data: indexOf holds every
+// collected function with a value of its own (set once per work-list entry).
 //@ maploop Disassemble 2
 //@   props C30
 //@   opt sorted yes
-//@   opt sortkey Name File
+//@   opt sortstrings Name File
+//@   opt sortinjective indexOf
 
 //@ maploop disassembleFunction 0
 //@   props C30
